@@ -132,6 +132,26 @@ def run_cfg(ctx, p, cfg):
                 # each replace("{}", idx) result feeds expand_env_vars
                 users = [x for x in rot.calls(EXPAND) if any(y[0] == "call" and y[1] == REPLACE and y[3] == c.block for y in walk(x.arg(0)))]
                 r.require(len(users) == 1, "every-substitution-is-expanded:%s" % common.role(c), fn=rot, site=c.at, detail="pattern.replace(..) -> expand_env_vars")
+        # ... once: configured text is expanded where it is taken in (the two builders' path argument, the roller's pattern after the
+        # index is substituted).  A path that has been through the expansion is final - a value it picked up may itself read like a
+        # reference - so nothing expands a stored path, the file handed to a roller, or the result of an expansion again.
+        home = set()
+        if "file_appender" in feats:
+            home.add(FILE_BUILD)
+        if "rolling_file_appender" in feats:
+            home.add(ROLL_BUILD)
+        if "fixed_window_roller" in feats:
+            home.add(ro7["rotate"].path)
+        for c in sites:
+            host = c.fn.path if c.fn.kind != "Closure" else (c.fn.d.get("closure_of") or c.fn.path)
+            while host in p.fns and p.fns[host].kind == "Closure" and p.fns[host].d.get("closure_of"):
+                host = p.fns[host].d["closure_of"]
+            a0 = c.arg(0)
+            again = [x for x in walk(a0) if x[0] == "call" and x[1] == EXPAND]
+            r.require(host in home and not again, "expanded-once:%s/%s" % (host.rsplit("::", 2)[-2] if "::" in host else host, common.role(c)), fn=c.fn, site=c.at,
+                      detail="expand_env_vars(%s) in %s: configured text, expanded where it is taken in" % (show(a0, 4), host),
+                      fail_detail="expand_env_vars is applied to %s in %s: %s" % (show(a0, 5), host, "the result of an expansion is expanded again" if again else
+                                  "not one of the places configured text is taken in (the builders' path argument, the roller's pattern): a path that was already expanded - its variables' values may read like references - is expanded a second time"))
         nsites = len(sites)
         if "fixed_window_roller" in feats:
             # the shift function is counted with its local closures spliced in (a closure naming the archive path is one site per use)
